@@ -2,6 +2,7 @@ package props
 
 import (
 	"fmt"
+	"math"
 
 	"github.com/sahandsafizadeh/qeep/tensor"
 
@@ -297,6 +298,47 @@ func runC04(c *fw.Ctx) {
 		})
 	}
 
+	for i := 0; i < c.Pick(400, 4000); i++ { // long contraction / row / column sizes (31..257)
+		c.Case(func(k *fw.K) {
+			sizes := []int{31, 32, 33, 40, 63, 64, 65, 70, 127, 128, 129, 257}
+			m, n, kk := 1+k.Rng.Intn(3), 1+k.Rng.Intn(3), 1+k.Rng.Intn(3)
+			switch k.Rng.Intn(3) {
+			case 0:
+				n = sizes[k.Rng.Intn(len(sizes))]
+			case 1:
+				m = sizes[k.Rng.Intn(len(sizes))]
+			default:
+				kk = sizes[k.Rng.Intn(len(sizes))]
+			}
+			dst := RandShape(k.Rng, 0, 2, 2)
+			prs := batchPairs(dst)
+			pr := prs[k.Rng.Intn(len(prs))]
+			k.Count("matmul_long_dimension_cases", 1)
+			c04MatMul(k, pr[0], pr[1], m, n, kk, true)
+		})
+	}
+	for i := 0; i < c.Pick(300, 3000); i++ { // Dot with a long contracted dimension
+		c.Case(func(k *fw.K) {
+			n := []int{31, 32, 33, 64, 65, 127, 128, 129, 257, 1001}[k.Rng.Intn(10)]
+			lead := RandShape(k.Rng, 0, 2, 3)
+			s := append(ref.CopyInts(lead), n)
+			srcs := BroadcastSources(s)
+			for {
+				sa, sb := srcs[k.Rng.Intn(len(srcs))], srcs[k.Rng.Intn(len(srcs))]
+				if len(sa) < 1 || len(sb) < 1 || sa[len(sa)-1] != n || sb[len(sb)-1] != n {
+					continue
+				}
+				if bs, err := ref.BroadcastShape(sa, sb); err == nil && ref.SameShape(bs, s) {
+					c04Dot(k, sa, sb, true)
+					return
+				}
+			}
+		})
+	}
+	for i := 0; i < c.Pick(400, 4000); i++ { // exact power-of-two scaling: (s.A).(B/s) = A.B bit for bit, also for s = 2^-840
+		c.Case(func(k *fw.K) { c04Scaled(k) })
+	}
+
 	// ---- Dot ----
 	for _, dst := range Shapes(1, c.Pick(4, 5), 3) {
 		last := dst[len(dst)-1]
@@ -339,5 +381,49 @@ func runC04(c *fw.Ctx) {
 				c.Case(func(k *fw.K) { c04Transpose(k, shape) })
 			}
 		}
+	}
+}
+
+// c04Scaled: integer matrices scaled by exact powers of two. (s.A).(B/s) must equal A.B exactly, whatever
+// the magnitude of s (every element of s.A may be far below 1e-240 while none is zero).
+func c04Scaled(k *fw.K) {
+	dst := RandShape(k.Rng, 0, 2, 3)
+	prs := batchPairs(dst)
+	pr := prs[k.Rng.Intn(len(prs))]
+	m, n, kk := 1+k.Rng.Intn(3), 1+k.Rng.Intn(3), 1+k.Rng.Intn(3)
+	sa := append(ref.CopyInts(pr[0]), m, n)
+	sb := append(ref.CopyInts(pr[1]), n, kk)
+	a, b := UniqueInts(k.Rng, sa), UniqueInts(k.Rng, sb)
+	e := []int{-840, -900, 840, -500, 300}[k.Rng.Intn(5)]
+	as, bs := a.Clone(), b.Clone()
+	for i := range as.Data {
+		as.Data[i] = math.Ldexp(as.Data[i], e)
+	}
+	for i := range bs.Data {
+		bs.Data[i] = math.Ldexp(bs.Data[i], -e)
+	}
+	if k.Rng.Intn(2) == 0 { // only some batch entries are tiny
+		for i := range as.Data {
+			if (i/(m*n))%2 == 1 {
+				as.Data[i] = a.Data[i]
+			}
+		}
+	}
+	in := ref.Instr{Op: "matmul"}
+	k.Case = fcase{In: in, Ops: []*ref.T{as, bs}, Tag: "power-of-two scaling"}
+	k.Key("matmul-scaled/%s/%s/%d", shapeKey(sa), shapeKey(sb), e)
+	k.Count("matmul_scaled_cases", 1)
+	want, err := ref.Apply(in, []*ref.T{as, bs})
+	if err != nil {
+		k.Failf("harness: %v", err)
+		return
+	}
+	for _, v := range want.Data {
+		if math.IsInf(v, 0) || math.IsNaN(v) {
+			return // out of range for this draw: no verdict
+		}
+	}
+	if msg := forwardCase(in, []*ref.T{as, bs}, true); msg != "" {
+		k.Failf("MatMul %v x %v with operands scaled by 2^%d and 2^%d: %s", sa, sb, e, -e, msg)
 	}
 }
